@@ -960,7 +960,8 @@ def should_unwrap(obj: type) -> bool:
 
     This is useful for determining what type to use at run-time for coercion.
     """
-    return (not isliteral(obj)) and any(x(obj) for x in _UNWRAPPABLE)
+    # (`origin()` looks through `ClassVar`: a qualified literal is still to be unwrapped.)
+    return any(x(obj) for x in _UNWRAPPABLE)
 
 
 @compat.cache
